@@ -35,6 +35,10 @@ DRV_CMD(path_rejoin, "path.rejoin") {
 DRV_CMD(path_chextmatch, "path.chextmatch") {
   return XFile::ExtensionMatches(XFile::ChangeFileExtension(hexDecode(need(a,0)), hexDecode(need(a,1))), hexDecode(need(a,2))) ? "1" : "0";
 }
+// the relation CreateArchive sorts with: ArchiveFile::ComparePathFilenames (protected static; reached through a derived class)
+namespace { struct ExposeCompare : OP2Utility::Archive::ArchiveFile {
+  static bool before(const std::string& a, const std::string& b) { return ComparePathFilenames(a, b); } }; }
+DRV_CMD(path_cmpfn, "path.cmpfn") { return ExposeCompare::before(hexDecode(need(a,0)), hexDecode(need(a,1))) ? "1" : "0"; }
 DRV_CMD(bits_pow2, "bits.pow2") { return IsPowerOf2(static_cast<uint32_t>(toU64(need(a,0)))) ? "1" : "0"; }
 DRV_CMD(bits_log2, "bits.log2") { return std::to_string(Log2OfPowerOf2(static_cast<uint32_t>(toU64(need(a,0))))); }
 
